@@ -5,7 +5,7 @@
 set -u
 name=$1; prop=$2; out=$3; shift 3; extra="$@"
 export GOFLAGS=-mod=mod GOPROXY=off GOSUMDB=off GOTOOLCHAIN=local
-V=/verif; W=/tmp/sv-$name
+V=${VERIF_HOME:-/verif}; W=/tmp/sv-$name
 git -C /repo worktree remove --force $W 2>/dev/null
 git -C /repo worktree add -q $W HEAD || exit 2
 res=$V/seeded/$name; mkdir -p $res; cp -r $out/. $res/ 2>/dev/null
